@@ -14,9 +14,9 @@ import (
 // position; each is documented to loop over short reads.
 var chunkAgnosticConsumers = map[string]int{
 	"bufio.NewScanner": 0, "bufio.NewReader": 0, "bufio.NewReaderSize": 0,
-	"encoding/xml.NewDecoder": 0,
+	"encoding/xml.NewDecoder":                  0,
 	"github.com/asticode/go-astits.NewDemuxer": 1,
-	"io.ReadFull": 0, "io.ReadAtLeast": 0, "io.ReadAll": 0, "io/ioutil.ReadAll": 0,
+	"io.ReadFull":                              0, "io.ReadAtLeast": 0, "io.ReadAll": 0, "io/ioutil.ReadAll": 0,
 	"io.Copy": 1, "io.CopyN": 1, "io.CopyBuffer": 1,
 	"io.LimitReader": 0, "io.TeeReader": 0, "io.MultiReader": -2,
 	"golang.org/x/net/html.NewTokenizer": 0,
